@@ -13,7 +13,6 @@ var (
 	LexTemplate         = compiler.VerifLexTemplate
 	LexTemplateRecover  = compiler.VerifLexTemplateRecover
 	TokenTypeNames      = compiler.VerifTokenTypeNames
-	ParseTemplateSource = compiler.VerifParseTemplateSource
 	SyntaxErrorPosition = compiler.VerifSyntaxErrorPosition
 	EndRawIndex         = compiler.VerifEndRawIndex
 )
